@@ -51,6 +51,12 @@ func evalInt(v ssa.Value) (int64, bool) {
 	if k, ok := constInt(v); ok {
 		return k, true
 	}
+	if u, ok := v.(*ssa.UnOp); ok && u.Op == token.MUL {
+		if a, ok := u.X.(*ssa.Alloc); ok {
+			return cellValueBefore(a, u, u.Block(), map[*ssa.BasicBlock]bool{})
+		}
+		return 0, false
+	}
 	b, ok := v.(*ssa.BinOp)
 	if !ok {
 		return 0, false
@@ -895,4 +901,50 @@ func ruleKeyframeConsts(c *Ctx) {
 		})
 		c.Decide(okMask, "naltype-extract:"+strings.Trim(m.name, "(*)"), p.Pos(fn.Pos()), "NAL type extracted from payload[0] with the codec's shift/mask", "the NAL type is not extracted from payload[0] with the codec's shift/mask")
 	}
+}
+
+// cellValueBefore evaluates the constant held by local int cell a just before
+// instruction `at` (nil = end of block) in block b: the reaching store must be
+// a constant expression on every path; a call that receives the cell's
+// address makes it unknown.
+func cellValueBefore(a *ssa.Alloc, at ssa.Instruction, b *ssa.BasicBlock, visiting map[*ssa.BasicBlock]bool) (int64, bool) {
+	idx := len(b.Instrs)
+	if at != nil {
+		for i, ins := range b.Instrs {
+			if ins == at {
+				idx = i
+			}
+		}
+	}
+	for i := idx - 1; i >= 0; i-- {
+		switch x := b.Instrs[i].(type) {
+		case *ssa.Store:
+			if x.Addr == ssa.Value(a) {
+				return evalInt(x.Val)
+			}
+		case *ssa.Call:
+			for _, arg := range x.Call.Args {
+				if arg == ssa.Value(a) {
+					return 0, false
+				}
+			}
+		}
+		if b.Instrs[i] == ssa.Instruction(a) {
+			return 0, false // reached the allocation without a store
+		}
+	}
+	if visiting[b] || len(b.Preds) == 0 {
+		return 0, false
+	}
+	visiting[b] = true
+	defer delete(visiting, b)
+	var val int64
+	for i, pr := range b.Preds {
+		v, ok := cellValueBefore(a, nil, pr, visiting)
+		if !ok || (i > 0 && v != val) {
+			return 0, false
+		}
+		val = v
+	}
+	return val, true
 }
